@@ -166,6 +166,18 @@ def main(argv):
     n = spec['n_thorough'] if tier == 'thorough' else spec['n_quick']
     if broken:
         n = max(n, spec['n_quick'] * 3)      # a broken obligation: search harder (DESIGN §7)
+        # harvest the literals of the changed definitions (old and new text): thresholds, constants, table entries
+        lits = set()
+        for b in broken:
+            for d in (gen_defs.get(b), model_defs.get(b)):
+                if d:
+                    for mm in re.finditer(r'f64lit 0x([0-9a-f]{16})', d['text']):
+                        lits.add(int(mm.group(1), 16))
+                    for mm in re.finditer(r'\((-?\d+) : [IU]\d+\)', d['text']):
+                        v = int(mm.group(1))
+                        if abs(v) < 2 ** 60:
+                            lits.add(fp.bits(float(v)))
+        fp.POOL[:] = [fp.fbits(b) for b in sorted(lits) if fp.fbits(b) == fp.fbits(b)][:4000]
     cases = spec['gen'](r, n) if not spec.get('gen_tier') else spec['gen'](r, n, tier == 'thorough')
     corpus = os.path.join(VERIF, 'corpus', pid + '.txt')
     n_corpus = 0
@@ -190,12 +202,17 @@ def main(argv):
         if not st.get('harness_serde'):
             print('serde harness failed to build: ' + str(st.get('serde_error'))[-2000:])
     impl = run_cases(st, cases.lines, hkey)
-    model = corr.run_parallel([st['driver']], cases.lines, 16)[0]
+    no_model = not st.get('driver')
+    def run_model(lines):
+        if no_model:
+            return list(run_cases(st, lines, hkey))      # no model to compare with: the obligation is reported below
+        return corr.run_parallel([st['driver']], lines, 16)[0]
+    model = run_model(cases.lines)
     for i, m in enumerate(cases.meta):
         if m.get('impl_only'):
             model[i] = impl[i]
     impl_g = run_cases(st, gen_lines)
-    model_g = corr.run_parallel([st['driver']], gen_lines, 16)[0]
+    model_g = run_model(gen_lines)
     cdiff = corr.diff(cases.lines, impl, model) + corr.diff(gen_lines, impl_g, model_g)
 
     # ---- search: the property's oracle on the implementation's answers
@@ -206,7 +223,7 @@ def main(argv):
         c2 = fu[0](prev_c, prev_a)
         if c2.lines:
             if len(fu) > 3 and fu[3] == 'model':
-                a2 = corr.run_parallel([st['driver']], c2.lines, 16)[0]
+                a2 = run_model(c2.lines) if not no_model else [m.get('want') for m in c2.meta]
             else:
                 a2 = run_cases(st, c2.lines, hkey)
             extra_eval += len(c2.lines)
@@ -247,7 +264,7 @@ def main(argv):
     for e in ps['errors']:
         obligations += 1
     obligations += len(foot); discharged += len(foot) - len(broken)      # Gen ≡ Model per definition (identical or kernel-bridged)
-    obligations += 1; discharged += (0 if cdiff else 1)                  # correspondence stream
+    obligations += 1; discharged += (0 if (cdiff or no_model) else 1)     # correspondence stream
     obligations += 1; discharged += (0 if untranslated else 1)
     if spec.get('hand_sources'):
         obligations += len(spec['hand_sources']); discharged += len(spec['hand_sources']) - len(hand_changed)
@@ -261,7 +278,7 @@ def main(argv):
                                     'n_failures': len(fresh), 'clauses': sorted({x['clause'] for x in fresh}), 'seed': seed,
                                     'broken_obligations': broken})
         violations.append('VIOLATION property=%s replay=%s' % (pid, rp))
-    elif broken or cdiff or untranslated or cfg_dep or hand_changed or not ps['ok']:
+    elif broken or cdiff or untranslated or cfg_dep or hand_changed or no_model or not ps['ok']:
         what = []
         if broken:
             what.append('bridge: ' + ', '.join('bridge.' + b for b in broken[:8]))
@@ -269,6 +286,8 @@ def main(argv):
             what.append('correspondence(first differing case=%s impl=%s model=%s)' % cdiff[0][1:])
         if untranslated:
             what.append('untranslatable: ' + ', '.join(u['name'] for u in untranslated[:5]))
+        if no_model:
+            what.append('model: ' + '; '.join(st.get('model_errors', ['no driver']))[:700])
         if hand_changed:
             what.append('hand-modelled source changed (the hand model in TFV/Hand is tied to the text it was written from): ' + ', '.join(hand_changed))
         if cfg_dep:
@@ -277,7 +296,7 @@ def main(argv):
             what.append('proof: ' + '; '.join(ps['errors'])[:600])
         # behaviour-changing inputs (implementation vs the Model snapshot) are recorded to help triage
         changed_inputs = []
-        if broken and st['driver'] != st['model_driver']:
+        if broken and st.get('driver') and st['driver'] != st['model_driver']:
             snap = corr.run_parallel([st['model_driver']], cases.lines, 16)[0]
             changed_inputs = [(ln, x, y) for (_, ln, x, y) in corr.diff(cases.lines, impl, snap)[:5]]
         rp = write_replay(pid, st, {'kind': 'obligation', 'obligations': what, 'behaviour_changes_vs_snapshot': changed_inputs, 'seed': seed})
